@@ -24,6 +24,27 @@ var c09RunExprs = []string{
 	"echo ${{ github.event.issue.title }}", "echo ${{ steps.first.outputs.v }}", "echo ${{ steps.nope.outputs.v }}", "echo ${{ 1 + }}",
 	"echo ${{ env.FOO }}", "echo ${{ fromJSON('[1, 2]')[0].x }}", "echo ${{ needs.base.outputs.o }}", "echo ${{ needs.other.result }}",
 	"echo ${{ toJSON(matrix) }}", "echo ${{ format('{0} {1}', 1) }}", "echo ${{ secrets.TOKEN }} ${{ inputs.who }}",
+	"echo ${{ github.event.foo.bar }}", "echo ${{ inputs.include }}", "echo ${{ inputs.who.x }}", "echo ${{ github.event.inputs.foo.bar }}",
+	"echo ${{ matrix.foo.bar }}", "echo ${{ vars.foo.bar }}", "echo ${{ env.foo.bar }}", "echo ${{ steps.first.outputs.v.w }}",
+}
+
+// job-level strings that mention steps of (possibly) other jobs, and matrices built from shared context types
+var c09JobLevel = [][]string{
+	{"    env:", "      V: ${{ steps.first.outputs.v }}"},
+	{"    env:", "      V: ${{ steps.dup.outputs.v }}"},
+	{"    env:", "      V: ${{ steps.ok-id.conclusion }}"},
+	{"    name: ${{ steps.first.outcome }}"},
+	{"    if: steps.first.outputs.v == 'x'"},
+	{"    continue-on-error: ${{ steps.ok-id.outputs.v == 'x' }}"},
+}
+
+var c09Matrices = [][]string{
+	{"        include:", "          - ${{ github.event }}", "          - foo: 1"},
+	{"        include:", "          - ${{ inputs }}", "          - who: {x: 1}"},
+	{"        include:", "          - ${{ github.event.inputs }}", "          - foo: 1"},
+	{"        include:", "          - ${{ vars }}", "          - foo: 1"},
+	{"        include:", "          - ${{ env }}", "          - 1"},
+	{"        x: [1]", "        include:", `          - "${{ fromJSON('{\"a\": 1}') }}"`, "          - a: {b: 1}"},
 }
 
 func genJobBlock(rng *rand.Rand, idx int) jobBlock {
@@ -38,7 +59,20 @@ func genJobBlock(rng *rand.Rand, idx int) jobBlock {
 	default:
 		l = append(l, "    runs-on: ubuntu-latest")
 	}
-	if rng.Intn(2) == 0 {
+	jobLevel := -1
+	if rng.Intn(3) == 0 {
+		jobLevel = rng.Intn(len(c09JobLevel))
+		if strings.HasPrefix(c09JobLevel[jobLevel][0], "    name") || strings.HasPrefix(c09JobLevel[jobLevel][0], "    cont") {
+			l = append(l, c09JobLevel[jobLevel]...)
+			jobLevel = -1
+		}
+	}
+	if rng.Intn(6) == 0 {
+		l = append(l, "    strategy:", "      matrix: \"${{ "+[]string{"inputs", "github.event", `fromJSON('{\"include\": [{\"a\": 1}]}')`, "vars"}[rng.Intn(4)]+" }}\"")
+	} else if rng.Intn(5) == 0 {
+		l = append(l, "    strategy:", "      matrix:")
+		l = append(l, c09Matrices[rng.Intn(len(c09Matrices))]...)
+	} else if rng.Intn(2) == 0 {
 		l = append(l, "    strategy:", "      matrix:")
 		switch rng.Intn(3) {
 		case 0:
@@ -52,10 +86,14 @@ func genJobBlock(rng *rand.Rand, idx int) jobBlock {
 	if rng.Intn(3) == 0 {
 		l = append(l, "    defaults:", "      run:", "        shell: "+[]string{"bash", "pwsh", "fish"}[rng.Intn(3)])
 	}
-	if rng.Intn(4) == 0 {
+	if jobLevel >= 0 && strings.HasPrefix(c09JobLevel[jobLevel][0], "    env") {
+		l = append(l, c09JobLevel[jobLevel]...)
+	} else if rng.Intn(4) == 0 {
 		l = append(l, "    env:", "      A B: x")
 	}
-	if rng.Intn(4) == 0 {
+	if jobLevel >= 0 && strings.HasPrefix(c09JobLevel[jobLevel][0], "    if") {
+		l = append(l, c09JobLevel[jobLevel]...)
+	} else if rng.Intn(4) == 0 {
 		l = append(l, "    if: ${{ github.event_name }} == 'push'")
 	}
 	if rng.Intn(5) == 0 {
@@ -141,8 +179,27 @@ func runC09(c *ctx, r *Report) error {
 		nPools, nComps = 2500, 16
 	}
 	r.Rule = fmt.Sprintf("%d pools of 6 independently generated jobs (runner labels, matrices incl. object filters `.*` before/after property access on the same row, default shells, env names, if conditions, steps with ids / actions / scripts with good and bad expressions), each job linted alone under a fixed header and then in %d random subsets × orders; also a job `base` with outputs that other jobs may need; the multiset of (line relative to the job, column, kind, message) of every job must be the same in every composition; same for steps: a step's diagnostics must not depend on LATER steps or on unrelated earlier steps; non-trivial = distinct (pool, composition) pairs where the job under comparison has at least one diagnostic", nPools, nComps)
-	header := []string{"on:", "  workflow_dispatch:", "    inputs:", "      who:", "        type: string"}
+	headerDispatch := []string{"on:", "  workflow_dispatch:", "    inputs:", "      who:", "        type: string", "      include:", "        type: string"}
+	// with workflow_dispatch inputs the checker works on a private copy of the github context; `on: push` keeps the shared one
+	headerPush := []string{"on: push"}
+	header := headerPush
+	// probe: one fixed job that reads every shared context type the generated jobs can touch. Its diagnostics
+	// before anything else was linted are the reference; they must be the same after every pool (nothing that
+	// was linted earlier in this process may change how a later workflow is typed).
+	probe := jobBlock{"probe", []string{"  probe:", "    runs-on: ubuntu-latest", "    strategy:", "      matrix:", "        x: [[1], [2]]", "    steps:", "      - id: first", "        run: echo"}}
+	for _, e := range c09RunExprs {
+		probe.lines = append(probe.lines, "      - run: "+e)
+	}
+	probeRef, _, probeSrc, err := composeAndLint(header, []jobBlock{probe})
+	if err != nil {
+		return err
+	}
+	r.Evaluations++
 	for p := 0; p < nPools; p++ {
+		header = headerDispatch
+		if p%3 == 0 {
+			header = headerPush
+		}
 		var pool []jobBlock
 		for i := 0; i < 6; i++ {
 			pool = append(pool, genJobBlock(rng, i))
@@ -197,6 +254,18 @@ func runC09(c *ctx, r *Report) error {
 						Case{Op: "lint-composed", Input: map[string]string{"job": strings.Join(j.lines, "\n"), "composed_yaml": src}, Impl: b, Model: a})
 				}
 			}
+		}
+		if now, _, _, err := composeAndLint(headerPush, []jobBlock{probe}); err != nil {
+			return err
+		} else if a, b := fmt.Sprint(probeRef["probe"]), fmt.Sprint(now["probe"]); a != b {
+			r.Evaluations++
+			var earlier []string
+			for _, j := range pool {
+				earlier = append(earlier, strings.Join(j.lines, "\n"))
+			}
+			r.finding("state-survives-lint", "a workflow is typed differently after other workflows were linted in the same process (a shared context type was modified)",
+				Case{Op: "lint-sequence", Input: map[string]string{"probe_yaml": probeSrc, "linted_before": strings.Join(earlier, "\n---\n")}, Impl: b, Model: a})
+			probeRef = now // report each change once
 		}
 		// steps: a step's diagnostics are independent of later steps and of unrelated earlier steps
 		var steps [][]string
